@@ -145,6 +145,8 @@ def frozen_cases():
                 n = cls((zoo.Leaf(), zoo.Leaf(v=1)))
             elif cls is zoo.Mixed:
                 n = cls(zoo.Leaf(), ())
+            elif cls is zoo.MixedR:
+                n = cls((), zoo.Leaf())
             else:
                 n = cls()
         except Exception as e:  # noqa
